@@ -39,7 +39,7 @@ def one_reactor_call():
 # =====================================================================================
 #                                   eventual-send queue
 # programs:  op = ["turn"] | ["act", act];  act = ["enq", script] | ["flush", fid] | ["fire", id]
-#            script = [id, [act...], raises]
+#            script = [id, [act...], raises];  ["flush", fid, [script...]]: the Deferred's callback enqueues the scripts
 # events:    [1,id] submitted  [2,id] started  [3,id] raised  [4,id] exception left _turn
 #            [5,fid,pending,running] flush notification (pending = submitted but not started)
 # =====================================================================================
@@ -127,6 +127,7 @@ class EvRun:
             d.addCallback(fired)
         elif a[0] == "flush":
             fid = a[1]
+            cbs = a[2] if len(a) > 2 else []
             self.flush_req.append(fid)
             running = 1 if self.depth else 0
             d = ev.flushEventualQueue()
@@ -140,11 +141,14 @@ class EvRun:
                     self.bad("oracle/flush-fires-while-batch-running",
                              "flush notification %d fired while a callable was running and %d submitted callables had not run" % (fid, pending))
                 elif pending:
-                    self.bad("oracle/flush-fires-nonempty", "flush notification %d fired with %d submitted callables not run" % (fid, pending))
+                    self.bad("oracle/flush-notified-after-earlier-observer-enqueued" if self.in_turn else "oracle/flush-fires-nonempty",
+                             "flush notification %d fired with %d submitted callables not run" % (fid, pending))
                 elif running:
                     self.bad("oracle/flush-fires-inside-callable", "flush notification %d fired while a callable of the batch was still running" % fid)
                 if v is not None:
                     self.bad("oracle/flush-value", "flush fired with %r" % (v,))
+                for sc in cbs:           # the observer's callback enqueues more work
+                    self.act(["enq", sc])
             d.addCallback(fl)
         else:
             raise ValueError(a)
@@ -212,7 +216,7 @@ def coq_act(a):
         return "AEnq %s" % coq_script(a[1])
     if a[0] == "fire":
         return "AEnq (Sc %d [] false)" % a[1]
-    return "AFlush %d" % a[1]
+    return "AFlush %d [%s]" % (a[1], "; ".join(coq_script(x) for x in (a[2] if len(a) > 2 else [])))
 
 
 def coq_evprog(prog):
@@ -576,6 +580,8 @@ def run_oso(prog):
                     o.fire(op[1])
                 except AssertionError:
                     out.append([2])
+                except AttributeError:
+                    out.append([3])
         finally:
             state["in_op"] = False
     for _ in range(50):
@@ -618,7 +624,7 @@ def observer_list_oracle(ctx):
     # with the AssertionErrors taken out (they happen at operation time)
     for k in range(0, len(progs), 600):
         chunk = progs[k:k + 600]
-        body = ("\nDefinition enc (o : oso_out) : list Z := match o with OEventually w r => [1; w; r]%Z | OAssert => [2]%Z end."
+        body = ("\nDefinition enc (o : oso_out) : list Z := match o with OEventually w r => [1; w; r]%Z | OAssert => [2]%Z | OCrash => [3]%Z end."
                 "\nDefinition cases : list (list oso_op) := " +
                 common.coq_list(chunk, lambda p: "[" + "; ".join(
                     ("OWhenFired %d" % o[1]) if o[0] == "w" else ("OFire %d" % o[1]) for o in p if o[0] != "t") + "]") +
@@ -631,17 +637,64 @@ def observer_list_oracle(ctx):
         for p, r, v in zip(chunk, res[k:k + 600], vals):
             ctx.traces += 1
             impl_told = [x for e in r["out"] if e[0] == 1 for x in e]
-            impl_as = sum(1 for e in r["out"] if e[0] == 2)
+            impl_as = [e[0] for e in r["out"] if e[0] != 1]
             mv = list(v)
-            m_told, m_as, i = [], 0, 0
+            m_told, m_as, i = [], [], 0
             while i < len(mv):
                 if mv[i] == 1:
                     m_told += mv[i:i + 3]
                     i += 3
                 else:
-                    m_as += 1
+                    m_as.append(mv[i])
                     i += 1
             if m_told != impl_told or m_as != impl_as:
                 ctx.fail("correspondence/oso", "observer-list model and implementation disagree on %s: model %r, implementation %r"
                          % (json.dumps(p), mv, r["out"]), replay=dict(kind="oso", program=p, model=mv, impl=r["out"]), has_input=False)
     ctx.extra["correspondence_oso_cases"] = len(progs)
+
+
+# =====================================================================================
+#   flush observers whose callbacks enqueue work (outside the model's alphabet: direct oracle only)
+# =====================================================================================
+def flush_observer_oracle(ctx):
+    """k flush requests are outstanding when the queue drains; the callback of observer i enqueues a callable.
+    Every notification must still be delivered with nothing queued."""
+    import json
+    for k in (2, 3):
+        for enq_by in range(k):
+            for inside in (False, True):
+                q = fresh_queue()
+                log = []
+                ran = []
+
+                def ask(i):
+                    d = ev.flushEventualQueue()
+
+                    def cb(_, i=i):
+                        log.append((i, len(q._events)))
+                        if i == enq_by:
+                            ev.eventually(lambda: ran.append("late"))
+                    d.addCallback(cb)
+
+                def first():
+                    ran.append("first")
+                    if inside:
+                        for i in range(k):
+                            ask(i)
+                ev.eventually(first)
+                if not inside:
+                    for i in range(k):
+                        ask(i)
+                for _ in range(20):
+                    if not one_reactor_call()[0]:
+                        break
+                cfg = dict(observers=k, enqueuing_observer=enq_by, requested_inside_callable=inside)
+                ctx.case(["flushobs", k, enq_by, inside], nontrivial=True)
+                bad = [(i, n) for i, n in log if n]
+                if sorted(i for i, _ in log) != list(range(k)) or ran != ["first", "late"]:
+                    ctx.fail("oracle/flush-observer-lost", "flush observers notified %r, callables run %r for %s" % (log, ran, json.dumps(cfg)),
+                             replay=dict(kind="flushobs", cfg=cfg, log=log))
+                elif bad:
+                    ctx.fail("oracle/flush-notified-after-earlier-observer-enqueued",
+                             "flush observer %d was notified while %d callable(s) queued by an earlier observer's callback had not "
+                             "run; %s" % (bad[0][0], bad[0][1], json.dumps(cfg)), replay=dict(kind="flushobs", cfg=cfg, log=log))
